@@ -28,13 +28,13 @@ def positions(expl, v, N):
     return pos
 
 
-def h_explain(f, N):
+def h_explain(f, N, txt=None, period=None):
     f = T(f)
     vs = sorted(variables(f))
 
     def body(env):
         A = env.A
-        s = dt.make_spec('offline', 'out = ' + text(f), vs)
+        s = dt.make_spec('offline', 'out = ' + (txt or text(f)), vs, period=period)
         w = dt.trace(env, vs, N)
         out = dt.offline(s, w, N)
         s.explain()
@@ -126,6 +126,13 @@ def obligations(tier, rng):
     for f in [('geq', X, C), ('always_t', ('implies', ('geq', X, C), ('eventually_t', ('leq', Y, C), 0, 1)), 0, 1), ('or', ('geq', X, C), ('once', ('leq', Y, C))),
               ('eventually', ('geq', X, C)), ('not', ('historically', ('geq', X, C)))]:
         out.append(ob('C20', 'reuse', 'reuse/%s/N=3' % text(f), f=f, N=3, max_paths=40000, wall=600))
+    # bounds that are not plain sample counts (explicit units, sampling period other than the default unit)
+    GU = ('geq', X, ('const', 0.0))
+    for f, txt, period in [(('always_t', GU, 0, 4), 'always[0:2s]((x) >= (0.0))', [500, 'ms', 0.1]), (('eventually_t', GU, 2, 4), 'eventually[1:2]((x) >= (0.0))', [500, 'ms', 0.1]),
+                           (('always_t', GU, 1, 3), 'always[1000ms:3s]((x) >= (0.0))', None), (('once_t', GU, 0, 2), 'eventually[2,2](once[0ms:2000ms]((x) >= (0.0)))', None)]:
+        if f[0] == 'once_t':
+            f = ('eventually_t', f, 2, 2)
+        out.append(ob('C20', 'explain', 'units/%s/p=%s' % (txt, period), f=f, N=6, txt=txt, period=period, max_paths=40000, wall=600))
     # depth 3: a temporal operator over a Boolean combination with another temporal operator - the inner operator is asked
     # to explain SEVERAL disjoint intervals at once
     GA, GB = ('geq', X, ('const', 0.0)), ('geq', Y, ('const', 0.0))
